@@ -105,11 +105,71 @@ def opMaterialise : List V → Option V
       some (ofList (ofOpt ofNat) (materialiseColls ps ts))
   | _ => none
 
+/-- `xspans <c> <n>` → `[[first label, rows] …]` of the chunk stream a reader delivers for `n` rows -/
+def opSpans : List V → Option V
+  | [c, n] => do
+      let c ← toNat? c
+      let n ← toNat? n
+      if c = 0 then some (atom "reject-chunk0") else
+      some (ofList (fun s => list [ofNat s.1, ofNat s.2]) (chunkSpans c n))
+  | _ => none
+
+/-- `xspansspec <c> <n>` → the closed form (`k·c`, `min c (n − k·c)`) -/
+def opSpansSpec : List V → Option V
+  | [c, n] => do
+      let c ← toNat? c
+      let n ← toNat? n
+      if c = 0 then some (atom "reject-chunk0") else
+      some (ofList (fun s => list [ofNat s.1, ofNat s.2]) (chunkSpansSpec c n))
+  | _ => none
+
+/-- `xdtypes <c> [cell classes]` → dtype (0 int64, 1 float64, 2 object) under which every row's cell travels -/
+def opDtypes : List V → Option V
+  | [c, cls] => do
+      let c ← toNat? c
+      let cls ← toList? toNat? cls
+      if c = 0 then some (atom "reject-chunk0") else
+      some (ofList ofNat (chunkDtypes c cls))
+  | _ => none
+
+def keyVariant (k : Nat) : Nat → Nat → Nat → Nat :=
+  if k = 0 then canonKey else if k = 1 then numKey else strKey
+
+/-- value ids of the last level column that denote text which is not a number -/
+def textIds (n : Nat) (rs : List Row) (txt : List Bool) : List Nat :=
+  ((rs.zip txt).filter (fun p => p.2)).map (fun p => p.1.key (n - 1))
+
+/-- `xkeyfiles <variant> <c> <dedup> <nLevels> [rows] [scores] [frac flags of the spectrum column]
+[text flags of the last level column]` → the result files of a text input whose numeric spectrum column
+and whose last roll-up level column have mixed spellings.  variant 0 = `_entity_key` (the code as it is),
+1 = numbers as floats only (until 0d68f96), 2 = `str()` (until 5233470) — the refuted variants are used
+by the harness to say what a disagreement looks like -/
+def opKeyFiles : List V → Option V
+  | [k, c, d, n, rs, sc, fr, tx] => do
+      let k ← toNat? k
+      let c ← toNat? c
+      let d ← toBool? d
+      let n ← toNat? n
+      let rs ← toList? row? rs
+      let sc ← toList? toInt? sc
+      let fr ← toList? toBool? fr
+      let tx ← toList? toBool? tx
+      if c = 0 then some (atom "reject-chunk0") else
+      if rs.length != sc.length || rs.length != fr.length || rs.length != tx.length then some (atom "reject-length") else
+      let key := keyVariant k
+      let rows1 := keyedRows key c none (fun _ => false) fr rs
+      let texts := textIds n rs tx
+      let rows2 := if n = 0 then rows1
+        else keyedRows key c (some (n - 1)) (fun v => texts.contains v) (rs.map (fun _ => false)) rows1
+      some (list ((resultFiles c d n zeroPep rows2 sc).map fileV))
+  | _ => none
+
 end Mk.Ops.Cross
 
 namespace Mk.Ops
 open Mk.Ops.Cross
 def crossOps : List (String × (List V → Option V)) :=
   [("xensemble", opEnsemble), ("xensemblespec", opEnsembleSpec), ("xreset", opReset),
-   ("xfiles", opFiles), ("xfilesspec", opFilesSpec), ("xmaterialise", opMaterialise)]
+   ("xfiles", opFiles), ("xfilesspec", opFilesSpec), ("xmaterialise", opMaterialise),
+   ("xspans", opSpans), ("xspansspec", opSpansSpec), ("xdtypes", opDtypes), ("xkeyfiles", opKeyFiles)]
 end Mk.Ops
